@@ -3,7 +3,7 @@ import shapecheck
 
 PROP = 'C02'
 VARIANTS = ['asan-direct']
-RULE = ('Generators: (a) fz_shape libFuzzer campaign (16 forked workers, table-aware mutator) over synthesised + minified shipped fonts, header bytes select face options/table source/encoding/dir 0..7/ppm/features/language/NUL-termination, text drawn from the face\'s own mapped code points plus unmapped, astral and ill-formed units; (b) Hypothesis "wild" GDL-lite programs (backward cursor, insert-heavy, attach chains and re-attachment, put_copy/assoc in positioning passes, division, arbitrary slot attributes, reversed passes, NSM/mirror/pseudo glyphs, justification levels) x 1-4 probes; (c) shipped fonts x cmap-guided texts x 3 encodings x dir 0..7. Oracle: ASan/UBSan/LSan silent; hook H1: rule-loop iterations <= maxRuleLoop x (slots at pass start + insert budget + 2) for every pass; n_slots <= 64 x nChars; every gr_seg_*/gr_slot_*/gr_cinfo_* query (gr_slot_attr for all codes, sub-indices) and gr_seg_destroy complete; watchdog trips are confirmed 3x alone (40 s limit, fresh process) before being reported as does-not-return. Non-trivial: >=1 rule action executed or the segment was refused after rules ran. Distinct by input hash / case JSON.')
+RULE = ('Generators: (a) fz_shape libFuzzer campaign (16 forked workers, table-aware mutator) over synthesised + minified shipped fonts, header bytes select face options/table source/encoding/dir 0..7/ppm/features/language/NUL-termination, text drawn from the face\'s own mapped code points plus unmapped, astral and ill-formed units; (b) Hypothesis "wild" GDL-lite programs (backward cursor, insert-heavy, attach chains and re-attachment, put_copy/assoc in positioning passes, substitution through arbitrary class pairs, division, arbitrary slot attributes, reversed passes, NSM/mirror/pseudo glyphs, unreadable glyphs, linear and bisected class tables, justification levels, line-end contextuals; for C04 half of them attachment-stress programs over a 3-4 glyph alphabet) x 1-4 probes; (c) shipped fonts x cmap-guided texts (1 in 4 with raw ill-formed code-unit fragments) x 3 encodings x dir 0..7 x font NULL / unhinted / hinted. Oracle: ASan/UBSan/LSan silent; hook H1: rule-loop iterations <= maxRuleLoop x (slots at pass start + insert budget + 2) for every pass; n_slots <= 64 x nChars; every gr_seg_*/gr_slot_*/gr_cinfo_* query (gr_slot_attr for all codes, sub-indices) and gr_seg_destroy complete; watchdog trips are confirmed 3x alone (40 s limit, fresh process) before being reported as does-not-return. Non-trivial: >=1 rule action executed or the segment was refused after rules ran. Distinct by input hash / case JSON.')
 ASSUME = ['sanitizers make out-of-bounds accesses, UB and leaks visible', 'H1 bound derivation: DESIGN section 4', 'collision passes are covered for safety, not for a work bound']
 
 
